@@ -236,7 +236,7 @@ class Spec(PropSpec):
     theorems = ["evaluate_first_match", "uninstall_preserves_order", "chain_in_installation_order",
                 "removed_never_consulted", "forgotten_guard_stays", "permanent_rule_stays",
                 "pending_sorted", "scheduler_refines_spec", "deliver_not_early", "deliver_within_tick",
-                "deliver_when_due", "equal_deadline_fifo", "drop_never_delivered", "zero_delay_immediate",
+                "deliver_when_due", "equal_deadline_fifo", "drop_never_delivered", "delivered_at_most_once", "zero_delay_immediate",
                 "loopback_not_in_out", "rules_see_only_egress", "c19_nonvacuous"]
     consts = NETPURE_CONSTS
     anchors = ANCHORS
